@@ -2,7 +2,8 @@
 import ckprop
 import genck
 import implck
-from ckprop import run_impl, model_view, shrink_candidates  # noqa: F401
+from ckprop import shrink_candidates  # noqa: F401
+from props import C19 as _C19
 
 DESCRIPTION = ("Lean: Props/C08.lean. Run-time: each capture at most once, only if preconditions pass and the callable has "
                "postconditions and snapshots, between the last precondition and the body; OLD seen by postconditions and "
@@ -18,6 +19,13 @@ AW = {"T": 10, "F": 3, "R": 0.5, "BR": 0.5, "CT": 0.5}
 
 
 def cases(tier, rng):
+    for t, c in _C19.cases(tier, rng):
+        if c.get('dom') == 'define' and c['what'] in ('snapshot_name', 'snapshot_apply'):
+            yield 'def_' + t, c
+    yield from _ck_cases(tier, rng)
+
+
+def _ck_cases(tier, rng):
     thorough = tier == "thorough"
     for c in genck.exhaustive_post(genck.KINDS, [False, True], 2, 2):
         if any(l["snaps"] for l in c["levels"]):
@@ -47,6 +55,12 @@ def _view(case, obs):
 
 
 def project(case, obs):
+    if case.get('dom') == 'define':
+        return _C19.project(case, obs)
+    return _ck_project(case, obs)
+
+
+def _ck_project(case, obs):
     if obs.get("define", ["ok"]) != ["ok"]:
         return ["define-failed"]
     caps, bi, olds = _view(case, obs)
@@ -55,6 +69,12 @@ def project(case, obs):
 
 
 def spec(case, mo, io):
+    if case.get('dom') == 'define':
+        return _C19.spec(case, mo, io)
+    return _ck_spec(case, mo, io)
+
+
+def _ck_spec(case, mo, io):
     if io.get("define", ["ok"]) != ["ok"]:
         return ["definition raised %s" % (io["define"],)]
     sp = mo["spec"]
@@ -102,18 +122,44 @@ def spec(case, mo, io):
 
 
 def classify(case, mo, io, fails):
+    if case.get('dom') == 'define':
+        return _C19.classify(case, mo, io, fails)
+    return _ck_classify(case, mo, io, fails)
+
+
+def _ck_classify(case, mo, io, fails):
     return "unclassified"
 
 
 def nontrivial_key(case, mo):
+    if case.get('dom') == 'define':
+        return _C19.nontrivial_key(case, mo)
+    return _ck_nontrivial_key(case, mo)
+
+
+def _ck_nontrivial_key(case, mo):
     if not any(l["snaps"] for l in case["levels"]):
         return None
     return ckprop.shape_key(case)
 
 
 def stats(case, mo, io, dist):
+    if case.get('dom') == 'define':
+        return _C19.stats(case, mo, io, dist)
+    return _ck_stats(case, mo, io, dist)
+
+
+def _ck_stats(case, mo, io, dist):
     dist["kind:" + case["kind"]] += 1
     dist["async" if case["async"] else "sync"] += 1
     dist["snaps:%d" % len(mo["snaps"])] += 1
     dist["captures:%d" % sum(1 for ev in io["trace"] if ev[0] == "capture")] += 1
     dist["out:" + (io["out"][0] if io.get("out") else "none")] += 1
+
+
+def run_impl(case):
+    return _C19.run_impl(case)
+
+
+def model_view(case, mo):
+    return _C19.model_view(case, mo)
